@@ -384,6 +384,7 @@ pub fn run_case(report: &Report, shard_seed: u64, case: u64, p: &Params) {
     rt.block_on(case_body(report, &mut rng, shard_seed, case, p));
 }
 
+#[allow(unused_assignments)]
 async fn case_body(report: &Report, rng: &mut StdRng, shard_seed: u64, case: u64, p: &Params) {
     let limit = *pick(rng, &[1usize, 2, 3, 3, 8]);
     let short_ttl = chance(rng, 30);
@@ -722,8 +723,8 @@ pub fn run(args: &Args, report: &Report) {
         return;
     }
     let shards = 16usize;
-    let cases: u64 = args.by_tier(100, 500);
-    let ops: usize = args.by_tier(400, 500);
+    let cases: u64 = args.by_tier(100, 1500);
+    let ops: usize = args.by_tier(400, 600);
     let rep = report.clone();
     run_shards(report, args, shards, move |_shard, shard_seed| {
         for case in 0..cases {
@@ -731,11 +732,11 @@ pub fn run(args: &Args, report: &Report) {
         }
     });
     if selftest == 0 {
-        report.require("subscribers.draining", 2000);
-        report.require("draining.fully_judged", 1000);
-        report.require("draining.ended_after_final", 1000);
-        report.require("draining.owed_statuses", 5000);
-        report.require("lagging.ended_with_failed_status", 50);
+        report.require("subscribers.draining", 10_000);
+        report.require("draining.fully_judged", 2000);
+        report.require("draining.ended_after_final", 10_000);
+        report.require("draining.owed_statuses", 50_000);
+        report.require("lagging.ended_with_failed_status", 60);
         report.require("ops.subscribe.rejected_limit", 100);
         report.require("ops.publish.update_statuses", 500);
         report.require("ops.publish.update_preconfirmations", 2000);
